@@ -370,7 +370,16 @@ impl Storage {
             .into_iter()
             .map(|ss| ss.block_number)
             .min();
-        let had_matched_blocks = self.get_earliest_matched_blocks().is_some();
+        // Neither beyond the start of the earliest discarded record: its blocks may have been
+        // indexed only in part before a restart, on top of an earlier pass over the same range.
+        let earliest_matched_start = self
+            .get_earliest_matched_blocks()
+            .map(|(start_number, _, _)| start_number.saturating_sub(1));
+        let had_matched_blocks = earliest_matched_start.is_some();
+        let min_recorded_number = match (min_recorded_number, earliest_matched_start) {
+            (Some(m), Some(e)) => Some(m.min(e)),
+            (m, _) => m,
+        };
         let min_block_number = match (min_block_number, min_recorded_number) {
             (Some(n), Some(m)) if had_matched_blocks => Some(n.min(m)),
             (None, Some(m)) if had_matched_blocks => {
